@@ -169,6 +169,37 @@ func (t *domainRoutingTracker) applyOwnerSnapshotLocked(ownerKey string, snapsho
 	}
 }
 
+// restoreKernelViewLocked puts the entries of keys back to what the tracker
+// records for them (best effort). A failed batch may have been applied in
+// part, and the tracker is not advanced on failure: without this the kernel
+// would hold values the tracker does not know about, and a later sync that
+// diffs against the tracker (this owner with another snapshot, or another
+// owner sharing the address) could leave them there for good.
+func (t *domainRoutingTracker) restoreKernelViewLocked(m *ebpf.Map, keys [][4]uint32) {
+	var (
+		putKeys [][4]uint32
+		putVals []bpfDomainRouting
+		delKeys [][4]uint32
+	)
+	for _, key := range keys {
+		if state := t.ips[key]; state != nil {
+			putKeys = append(putKeys, key)
+			putVals = append(putVals, state.merged)
+		} else {
+			delKeys = append(delKeys, key)
+		}
+	}
+	// Deletes first: they free the slots a full map needs for the writes.
+	if len(delKeys) > 0 {
+		_, _ = BpfMapBatchDelete(m, delKeys)
+	}
+	if len(putKeys) > 0 {
+		_, _ = BpfMapBatchUpdate(m, putKeys, putVals, &ebpf.BatchOptions{
+			ElemFlags: uint64(ebpf.UpdateAny),
+		})
+	}
+}
+
 func (t *domainRoutingTracker) syncOwner(
 	m *ebpf.Map,
 	ownerKey string,
@@ -236,11 +267,14 @@ func (t *domainRoutingTracker) syncOwnerIf(
 			if _, err := BpfMapBatchUpdate(m, keysToUpdate, valuesToUpdate, &ebpf.BatchOptions{
 				ElemFlags: uint64(ebpf.UpdateAny),
 			}); err != nil {
+				t.restoreKernelViewLocked(m, keysToUpdate)
 				return fmt.Errorf("update domain_routing_map: %w", err)
 			}
 		}
 		if len(keysToDelete) > 0 {
 			if _, err := BpfMapBatchDelete(m, keysToDelete); err != nil {
+				t.restoreKernelViewLocked(m, keysToUpdate)
+				t.restoreKernelViewLocked(m, keysToDelete)
 				return fmt.Errorf("delete domain_routing_map: %w", err)
 			}
 		}
